@@ -41,6 +41,8 @@ class Ids:
         self.objs = []
 
     def id(self, o):
+        if o is None:
+            o = type(None)            # None and NoneType are one type (typing writes either)
         for i, x in enumerate(self.objs):
             try:
                 if x == o:        # the graph itself identifies annotations with == (typing.Union[A, B] == A | B)
@@ -86,7 +88,7 @@ def std_unwrap(o):
             o = o.__supertype__
         else:
             break
-    return o
+    return type(None) if o is None else o      # typing writes NoneType as None inside aliases and NewTypes
 
 
 def full_unwrap(o):
